@@ -142,6 +142,8 @@ inline uint64_t lsm_canon_hash() {
     }
     for (; i < len; ++i) h = (h ^ p[i]) * 0x100000001b3ull;
   };
+  // floating-point control state (rounding mode, flush-to-zero, ...) is hidden state too; the sticky exception flags are not
+  uint64_t csr = __builtin_ia32_stmxcsr() & 0xFFC0u; h = fnv(&csr, 8, h);
   scan(I.stat, I.stat_len);
   uint64_t sep = 0x5EA5EA5EA5ull; h = fnv(&sep, 8, h);
   if (I.tls) scan(I.tls, I.tls_len);
